@@ -194,6 +194,10 @@ DeleteBatch(batch, g, F, r0) ==
 
 \* a write on node n fails when get or update is failing, or the node is gone from the API
 GetFails(F, api, n) == Failing(F, "get", n) \/ n \notin DOMAIN api
+\* a node write fails outright, or loses a race: another writer changed the object after it was read (here: set the no-delete
+\* annotation) and the API server answers 409 Conflict; either way the node is skipped, nothing is retried
+UpdFails(F, n) == Failing(F, "update", n) \/ Failing(F, "conflict", n)
+AfterConflict(F, n, api) == IF Failing(F, "conflict", n) /\ ~Failing(F, "update", n) THEN [api EXCEPT ![n].nodel = TRUE] ELSE api
 
 RECURSIVE TaintLoop(_, _, _, _, _, _, _)
 TaintLoop(att, i, g, F, now, eff, r) ==
@@ -203,9 +207,10 @@ TaintLoop(att, i, g, F, now, eff, r) ==
     ELSE IF n \notin DOMAIN r.api THEN TaintLoop(att, i + 1, g, F, now, eff, [r EXCEPT !.calls = Append(@, Call("get", g, n, TRUE, 0, 0, ""))])
     ELSE IF r.api[n].taint.has      \* the latest copy already carries the taint: counts, no write, no re-stamp
       THEN TaintLoop(att, i + 1, g, F, now, eff, [r EXCEPT !.calls = Append(@, Call("get", g, n, TRUE, 0, 0, "")), !.succ = @ + 1])
-    ELSE IF Failing(F, "update", n)
+    ELSE IF UpdFails(F, n)
       THEN TaintLoop(att, i + 1, g, F, now, eff,
-             [r EXCEPT !.calls = @ \o <<Call("get", g, n, TRUE, 0, 0, ""), Call("update", g, n, FALSE, now, 1, "taint:" \o eff)>>])
+             [r EXCEPT !.calls = @ \o <<Call("get", g, n, TRUE, 0, 0, ""), Call("update", g, n, FALSE, now, 1, "taint:" \o eff)>>,
+                       !.api = AfterConflict(F, n, @)])
     ELSE TaintLoop(att, i + 1, g, F, now, eff,
              [r EXCEPT !.calls = @ \o <<Call("get", g, n, TRUE, 0, 0, ""), Call("update", g, n, TRUE, now, 1, "taint:" \o eff)>>,
                        !.succ = @ + 1, !.tainted = @ \cup {n},
@@ -219,19 +224,20 @@ UntaintLoop(att, i, g, F, r) ==
     ELSE IF n \notin DOMAIN r.api THEN UntaintLoop(att, i + 1, g, F, [r EXCEPT !.calls = Append(@, Call("get", g, n, TRUE, 0, 0, ""))])
     ELSE IF ~r.api[n].taint.has     \* nothing to remove in the latest copy: counts, no write
       THEN UntaintLoop(att, i + 1, g, F, [r EXCEPT !.calls = Append(@, Call("get", g, n, TRUE, 0, 0, "")), !.succ = @ + 1])
-    ELSE IF Failing(F, "update", n)
+    ELSE IF UpdFails(F, n)
       THEN UntaintLoop(att, i + 1, g, F,
-             [r EXCEPT !.calls = @ \o <<Call("get", g, n, TRUE, 0, 0, ""), Call("update", g, n, FALSE, 0, 1, "untaint:")>>])
+             [r EXCEPT !.calls = @ \o <<Call("get", g, n, TRUE, 0, 0, ""), Call("update", g, n, FALSE, 0, 1, "untaint:")>>,
+                       !.api = AfterConflict(F, n, @)])
     ELSE UntaintLoop(att, i + 1, g, F,
              [r EXCEPT !.calls = @ \o <<Call("get", g, n, TRUE, 0, 0, ""), Call("update", g, n, TRUE, 0, 1, "untaint:")>>,
                        !.succ = @ + 1, !.untainted = @ \cup {n},
                        !.api = [@ EXCEPT ![n].taint = [has |-> FALSE, ok |-> FALSE, at |-> 0]]])
 
 \* nodes of att whose write fails (for SelectOKSeq), w.r.t. the API content at the start of the loop
-WriteFails(F, api, att) == {n \in SeqToSet(att) : GetFails(F, api, n) \/ Failing(F, "update", n)}
+WriteFails(F, api, att) == {n \in SeqToSet(att) : GetFails(F, api, n) \/ UpdFails(F, n)}
 \* for tainting, a node that already carries the taint in the API succeeds without an update
-TaintFails(F, api, att) == {n \in SeqToSet(att) : GetFails(F, api, n) \/ (~api[n].taint.has /\ Failing(F, "update", n))}
-UntaintFails(F, api, att) == {n \in SeqToSet(att) : GetFails(F, api, n) \/ (api[n].taint.has /\ Failing(F, "update", n))}
+TaintFails(F, api, att) == {n \in SeqToSet(att) : GetFails(F, api, n) \/ (~api[n].taint.has /\ UpdFails(F, n))}
+UntaintFails(F, api, att) == {n \in SeqToSet(att) : GetFails(F, api, n) \/ (api[n].taint.has /\ UpdFails(F, n))}
 
 -----------------------------------------------------------------------------
 (* One group's scan: controller.go scaleNodeGroup + the per-group part of RunOnce.                *)
@@ -263,7 +269,7 @@ ScaleUpOutcome(gs0, g, dry, now, F, N, ts, att, fleetLo, r) ==
       doUnt == Len(ts) > 0
       fails == IF dry THEN {} ELSE UntaintFails(F, r.api, att)
       selOK == IF doUnt THEN SelectOKSeq(created, -1, cands, N, fails, att) ELSE att = <<>>
-      failAll == IF dry THEN {} ELSE {n \in cands : GetFails(F, r.api, n) \/ (r.api[n].taint.has /\ Failing(F, "update", n))}
+      failAll == IF dry THEN {} ELSE {n \in cands : GetFails(F, r.api, n) \/ (r.api[n].taint.has /\ UpdFails(F, n))}
       r0 == IF doUnt THEN [r EXCEPT !.sel = [dir |-> -1, cands |-> cands, k |-> N, fails |-> failAll]] ELSE r
       u == IF ~doUnt THEN [r0 EXCEPT !.succ = 0]
            ELSE IF dry THEN [r0 EXCEPT !.succ = Len(att),
@@ -416,7 +422,7 @@ GroupScan(gs, g, now, dryAll, F, obs) ==
                    k0 == -nd
                    k == TaintCount(nUnt, k0, minEff)
                    created == CreatedOf(gs)
-                   failAll == IF dry THEN {} ELSE {n \in SeqToSet(unt) : GetFails(F, r5.api, n) \/ (~r5.api[n].taint.has /\ Failing(F, "update", n))}
+                   failAll == IF dry THEN {} ELSE {n \in SeqToSet(unt) : GetFails(F, r5.api, n) \/ (~r5.api[n].taint.has /\ UpdFails(F, n))}
                    r6 == [r5 EXCEPT !.sel = [dir |-> 1, cands |-> SeqToSet(unt), k |-> k, fails |-> failAll]]
                IN IF k < 0 THEN Done([r5 EXCEPT !.valid = @ /\ obs.att = <<>>], nd, "nil", "down_abort")
                   ELSE IF dry
